@@ -189,11 +189,11 @@ Verdict(ev) ==
                         ELSE IF len = W + 1 THEN {"dec_nonresidue"} ELSE {})) >>
     [] ev.ev = "s1.FromCoords" ->
          LET x == H(ev.x)  y == H(ev.y)  good == (x \prec P) /\ (y \prec P) /\ OnCurveXY(x, y) IN
-         << IF good THEN ev.ok /\ ev.out = EncUncompressedH(<<x, y>>) ELSE ~ev.ok /\ ev.retnil,
+         << IF good THEN ev.ok /\ ~ev.retnil /\ ev.out = EncUncompressedH(<<x, y>>) ELSE ~ev.ok /\ ev.retnil,
             IF good THEN {"coords_ok"} ELSE {"coords_bad"} >>
     [] ev.ev = "s1.Recover" ->
          LET xs == H(ev.xs)  d == RecoverPointD(xs, ev.id) IN
-         << IF d[1] = "ok" THEN ev.ok /\ ev.out = EncUncompressedH(d[2]) ELSE ~ev.ok /\ ev.retnil,
+         << IF d[1] = "ok" THEN ev.ok /\ ~ev.retnil /\ ev.out = EncUncompressedH(d[2]) ELSE ~ev.ok /\ ev.retnil,
             (IF d[1] = "ok" /\ ev.id < 2 THEN {"rec_ok_low"} ELSE {}) \cup (IF d[1] = "ok" /\ ev.id >= 2 THEN {"rec_ok_high"} ELSE {})
             \cup (IF ev.id \in {2, 3} /\ ~((xs ++ N) \prec P) THEN {"rec_overflow"} ELSE {})
             \cup (IF ev.id >= 4 THEN {"rec_bad_id"} ELSE {})
